@@ -262,6 +262,8 @@ func init() {
 	core.Registry["C07"].Rule += " Plus an Insert beyond badger's default transaction size next to two counting readers (none or all of the batch is ever visible; a refused batch leaves nothing)."
 	core.Registry["C07"].Uses = append(core.Registry["C07"].Uses, core.Use{E: &core.Engine{Name: "conc-recency", Run: RunConcRecency}, Quick: 120, Thorough: 3000})
 	core.Registry["C07"].Rule += " Plus a single writer that checks its own write (FindById, Count) the moment the call has returned, next to 3-8 readers that are always in flight (real-time order)."
+	core.Registry["C07"].Uses = append(core.Registry["C07"].Uses, core.Use{E: &core.Engine{Name: "conc-phantom", Run: RunConcPhantom}, Quick: 8, Thorough: 40})
+	core.Registry["C07"].Rule += " Plus one forced interleaving on badger: a bulk Update by criteria held at its Commit while ReplaceById moves a document into the selected range and a reader takes a snapshot (with and without an index on the criteria field)."
 	eReadFaults := &core.Engine{Name: "read-faults", Run: RunReadFaults}
 	for id, n := range map[string][2]int{"C08": {60, 1500}, "C01": {40, 1000}, "C02": {40, 1000}} {
 		core.Registry[id].Uses = append(core.Registry[id].Uses, core.Use{E: eReadFaults, Quick: n[0], Thorough: n[1]})
